@@ -383,7 +383,9 @@ func (s *Sched) enabled() []transition {
 					ready = append(ready, tr)
 				}
 			}
-			if len(ready) == 0 && op.hasDefault {
+			if len(ready) == 0 && op.hasDefault && !s.anyCompletable(t, op) {
+				// (a case whose hand-off is owned by a counterparty that parked later is not "ready"
+				// here, but it can complete: a real select would take it, never the default)
 				ready = append(ready, transition{t: t, caseIx: -1, desc: fmt.Sprintf("%s:select-default@%s", t.Name, op.site)})
 			}
 			if s.cfg.Order&2 != 0 {
@@ -505,6 +507,28 @@ func (s *Sched) caseReady(t *Thread, i int, c *commCase) (transition, bool) {
 		return tr, true
 	}
 	return tr, false
+}
+
+// anyCompletable: could some case of t's pending select complete right now, whoever owns the
+// transition?  (send: closed channel, a parked receiver, or room in the buffer; receive: a
+// buffered value, a closed channel, or a parked sender)
+func (s *Sched) anyCompletable(t *Thread, op *pendingOp) bool {
+	for _, c := range op.cases {
+		if c.ch == nil {
+			continue
+		}
+		ch := c.ch
+		if c.dir == dirSend {
+			if p, _ := s.firstParked(ch, dirRecv, t); ch.closed || p != nil || len(ch.buf) < ch.cap {
+				return true
+			}
+		} else {
+			if p, _ := s.firstParked(ch, dirSend, t); len(ch.buf) > 0 || ch.closed || p != nil {
+				return true
+			}
+		}
+	}
+	return false
 }
 
 // firstParked returns the earliest-parked thread (other than me) with a pending case of
